@@ -17,6 +17,9 @@
     Oracle (Spec/LvsSem.saneb): accepted => sane; not sane => LvsModelError (not some other exception);
     sane and rejected => only for a signing cycle; every query on an accepted model ends within the step
     budget (budget exhaustion = "diverges") and agrees with the model's machine.
+    The same on the wire: every TLV element of the encoded model removed (one at a time at every depth; one type everywhere),
+    loaded with Checker.load.  The model handed to the specification is what an independent reader of the documented format
+    finds in the bytes -- not the object the library's parser builds (a parser may fill in what is absent).
 """
 from harness.props import lvs_common as L
 from harness.props.c11 import name_pool
@@ -30,7 +33,12 @@ RULE = ('A: generated schemas x {undefined rule, temporary rule, self reference,
         'reference at a random (thorough: 3 random) rule / position; B: compiled models x every '
         'single-field corruption (version, start id, named-pattern count, node id, parent, edge destination, edge '
         'value/tag, signer entry, 11 option shapes) to {0, other valid id, out of range, 2^63, absent}, direct and '
-        'via save/load, then all names to length 2 + guided names under a step budget; non-trivial = the input differs '
+        'via save/load; the same compiled models as BYTES x every single TLV element at every nesting depth removed (Version, '
+        'StartId, NamedPatternCnt, each Node, and inside: NodeId, ParentId, Identifier, each edge and its NodeId / Value / Tag, '
+        'Constraint, ConsOption and its Value / Tag / UserFnCall, UserFnId, FnArgs, KeyNodeId, TagSymbol and its Tag / Identifier) '
+        'and every TLV type removed everywhere at once, loaded with Checker.load and judged on what a reader of the documented '
+        'format (in the harness, no ndn.encoding) finds in those bytes; the parsed object is compared with that reading; '
+        'then all names to length 2 + guided names under a step budget; non-trivial = the input differs '
         'from a valid schema/model; distinct by (schema, injection) / (model, corruption)')
 ASSUMPTIONS = ['a query is observed as diverging when it performs more than 200000 node look-ups',
                'TLV encoding of corrupted models uses the real codec (values it cannot encode are only tested in memory)']
@@ -160,11 +168,14 @@ def check_static(ctx, ast, fe, kind, tag):
              f'{tag}.{kind}.' + ('ok' if final[0] == 'ok' else str(final[1]) + '@' + stage))
 
 
-def check_loader(ctx, mk, fe, label, names, via_load):
-    """mk() -> corrupted LvsModel (fresh object)"""
+def check_loader(ctx, mk, fe, label, names, via_load, wire=None):
+    """mk() -> corrupted LvsModel (fresh object); or wire = corrupted bytes (then mk is unused): the model is what the
+    documented format reads out of these bytes, the implementation is Checker.load on them"""
     M = ctx.call
-    from ndn.app_support.light_versec import Checker
     fns, sfe = L.py_fns(fe), L.sx_fnenv(fe)
+    if wire is not None:
+        return check_loader_core(ctx, wire_dump(wire), impl_load(wire, fns), sfe, label, names, 'wire', 'Checker.load',
+                                 wire=wire)
     model = mk()
     if via_load:
         try:
@@ -178,26 +189,63 @@ def check_loader(ctx, mk, fe, label, names, via_load):
         except Exception as e:   # noqa
             ctx.stat('loader.unparsable:' + type(e).__name__)
             return
-    dump = L.dump_model(model)
+    check_loader_core(ctx, L.dump_model(model), L.impl_checker(model, fns), sfe, label, names,
+                      'load' if via_load else 'mem', 'Checker()')
+
+
+def _ctx_key(kv):
+    """a pattern whose TagSymbol carries no Identifier is reported under the key None: sortable next to bytes"""
+    return (kv[0] is not None, kv[0] or b'', kv[1])
+
+
+def impl_match(chk, name):
+    """as lvs_common.impl_match, the context sorted with absent identifiers first"""
+    if isinstance(chk.model.nodes, L.CountingList):
+        chk.model.nodes.left = L.IMPL_BUDGET
+    try:
+        out = []
+        for rn, cx in chk.match(name):
+            out.append([[x.encode() for x in rn],
+                        sorted([[k.encode() if isinstance(k, str) else k, bytes(v)] for k, v in cx.items()], key=_ctx_key)])
+        return ('ok', out)
+    except Exception as e:   # noqa
+        return ('err', L.exc_code(e), type(e).__name__ + ': ' + str(e)[:120])
+
+
+def model_match_result(ans):
+    return [[list(rn), sorted([[(k[0] if k else None), v] for k, v in cx], key=_ctx_key)] for rn, cx in ans]
+
+
+def check_loader_core(ctx, dump, c, sfe, label, names, how, site, wire=None):
+    """dump: the model (nested lists, what the specification is asked about); c: outcome of building the checker"""
+    M = ctx.call
+    via_load = how != 'mem'
     case = {'corruption': label, 'via_load': via_load, 'model': dump}
-    c = L.impl_checker(model, fns)
+    if wire is not None:
+        case['wire'] = wire.hex()
+        got = parsed_dump(wire)
+        if got is not None and L.canon(got) != L.canon(dump):
+            ctx.disagree('LvsModel.parse', 'the parsed model differs from what the documented format reads out of the bytes',
+                         case, dump, got)
     ms = M([2, dump])
     sane = bool(M([7, dump]))
     if not L.same_outcome(ms, c):
-        ctx.disagree('Checker()', 'different outcome (ok / error class)', case, ms, c[1:] if c[0] == 'err' else 'ok')
+        ctx.disagree(site, 'different outcome (ok / error class)', case, ms, c[1:] if c[0] == 'err' else 'ok')
     elif c[0] == 'ok':
         got = [sorted(x.encode() for x in c[1]._model_fns), sorted(c[1]._trust_roots)]
         want = [sorted(ms[1][0]), sorted(ms[1][1])]
         if got != want:
-            ctx.disagree('Checker()', 'different model functions / trust roots', case, want, got)
+            ctx.disagree(site, 'different model functions / trust roots', case, want, got)
+    san_site = 'Checker._sanity_check' if wire is None else 'Checker.load'
     if c[0] == 'ok':
         if not sane:
-            ctx.violation('Checker._sanity_check', 'accepts-model-breaking-a-sanity-rule',
+            ctx.violation(san_site, 'accepts-model-breaking-a-sanity-rule' if wire is None else
+                          'accepts-bytes-breaking-a-sanity-rule:' + label.split(':')[0],
                           'a model that breaks a documented sanity rule is accepted', case)
         chk = L.with_budget(c[1])
         impl = []
         for n in names:
-            impl.append(L.impl_match(chk, n))
+            impl.append(impl_match(chk, n))
             if impl[-1][0] == 'err' and impl[-1][1] == L.E_FUEL:
                 names = names[:len(impl)]        # one diverging query is enough (each costs the whole budget)
                 break
@@ -208,7 +256,7 @@ def check_loader(ctx, mk, fe, label, names, via_load):
                 ctx.violation('Checker.match', 'query-diverges-on-accepted-model', 'match() exceeds the step budget on an accepted model', dict(case, name=n))
             if not L.same_outcome(mi, ri):
                 ctx.disagree('Checker.match', 'different outcome on a corrupted model', dict(case, name=n), mi, ri[1:] if ri[0] == 'err' else ri[1])
-            elif ri[0] == 'ok' and L.canon(L.model_match_result(mi[1])) != L.canon(ri[1]):
+            elif ri[0] == 'ok' and L.canon(model_match_result(mi[1])) != L.canon(ri[1]):
                 ctx.disagree('Checker.match', 'different matches on a corrupted model', dict(case, name=n), mi[1], ri[1])
         pairs = [[names[i], names[(i * 7 + 3) % len(names)]] for i in range(0, len(names), 3)]
         implc = []
@@ -226,12 +274,160 @@ def check_loader(ctx, mk, fe, label, names, via_load):
                 ctx.disagree('Checker.check', 'different outcome on a corrupted model', dict(case, pair=pq), mi, ri[1:])
     else:
         if not sane and c[1] != L.E_LVSMODEL:
-            ctx.violation('Checker._sanity_check', 'wrong-exception-' + c[2].split(':')[0],
+            ctx.violation(san_site, 'wrong-exception-' + c[2].split(':')[0],
                           'a model breaking a sanity rule raises something else than LvsModelError', case)
         if sane and not (c[1] == L.E_SEMANTIC and not M([9, dump])):
-            ctx.violation('Checker._sanity_check', 'rejects-sane-model', f'a model satisfying every sanity rule is rejected: {c[2]}', case)
-    ctx.case((label, via_load, repr(dump)), label != 'intact', {'corruption': label} if label.endswith('parent=0') else None,
-             'loader.' + label.split('=')[0].split('[')[0].split(':')[0] + ('.load' if via_load else '.mem') + ('.accepted' if c[0] == 'ok' else '.' + str(c[1])))
+            ctx.violation(san_site, 'rejects-sane-model', f'a model satisfying every sanity rule is rejected: {c[2]}', case)
+    stratum = label.split('=')[0].split('[')[0].split(':')[0] if wire is None else wire_stratum(label)
+    ctx.case((label, how, repr(dump)), label != 'intact', {'corruption': label} if label.endswith('parent=0') else None,
+             'loader.' + stratum + '.' + how + ('.accepted' if c[0] == 'ok' else '.' + str(c[1])))
+
+
+# ---------------------------------------------------------------------------------------------
+# the binary format as documented (docs/src/lvs/binary-format.rst), read independently of ndn.encoding: the loader is judged
+# on what the BYTES say, not on the object its parser builds out of them (a parser may fill in what is not there)
+T_VALUE, T_TAG, T_NODE_ID, T_FN_ID, T_IDENT, T_FN_CALL, T_FN_ARGS = 0x21, 0x23, 0x25, 0x27, 0x29, 0x31, 0x33
+T_OPTION, T_CONSTRAINT, T_VEDGE, T_PEDGE, T_KEY_NODE, T_PARENT = 0x41, 0x43, 0x51, 0x53, 0x55, 0x57
+T_VERSION, T_NODE, T_SYMBOL, T_NPC = 0x61, 0x63, 0x67, 0x69
+CONTAINERS = {T_NODE, T_SYMBOL, T_VEDGE, T_PEDGE, T_CONSTRAINT, T_OPTION, T_FN_CALL, T_FN_ARGS}
+T_NAMES = {T_VALUE: 'Value', T_TAG: 'Tag', T_NODE_ID: 'NodeId', T_FN_ID: 'UserFnId', T_IDENT: 'Identifier', T_FN_CALL: 'UserFnCall',
+           T_FN_ARGS: 'FnArgs', T_OPTION: 'ConsOption', T_CONSTRAINT: 'Constraint', T_VEDGE: 'ValueEdge', T_PEDGE: 'PatternEdge',
+           T_KEY_NODE: 'KeyNodeId', T_PARENT: 'ParentId', T_VERSION: 'Version', T_NODE: 'Node', T_SYMBOL: 'TagSymbol',
+           T_NPC: 'NamedPatternCnt'}
+
+
+def _rd_var(buf, i):
+    x = buf[i]
+    if x < 253:
+        return x, i + 1
+    w = {253: 2, 254: 4, 255: 8}[x]
+    return int.from_bytes(buf[i + 1:i + 1 + w], 'big'), i + 1 + w
+
+
+def _wr_var(n):
+    if n < 253:
+        return bytes([n])
+    for mark, w in ((253, 2), (254, 4), (255, 8)):
+        if n < 1 << (8 * w):
+            return bytes([mark]) + n.to_bytes(w, 'big')
+
+
+def tlv_tree(buf):
+    """bytes -> [[type, payload]], payload = bytes (leaf) or a list again (the documented container types)"""
+    out, i = [], 0
+    while i < len(buf):
+        t, i = _rd_var(buf, i)
+        ln, i = _rd_var(buf, i)
+        v = bytes(buf[i:i + ln])
+        assert len(v) == ln
+        i += ln
+        out.append([t, tlv_tree(v) if t in CONTAINERS else v])
+    return out
+
+
+def tlv_bytes(tree):
+    out = b''
+    for t, v in tree:
+        vb = tlv_bytes(v) if isinstance(v, list) else v
+        out += _wr_var(t) + _wr_var(len(vb)) + vb
+    return out
+
+
+def _one(tree, t, conv):
+    for tt, v in tree:
+        if tt == t:
+            return [conv(v)]
+    return []
+
+
+def _all(tree, t, conv):
+    return [conv(v) for tt, v in tree if tt == t]
+
+
+def _uint(v):
+    return int.from_bytes(v, 'big')
+
+
+def wire_dump(wire):
+    """what the documented format reads out of the bytes, in the shape of lvs_common.dump_model (an absent TLV is absent)"""
+    def arg(t):
+        return [_one(t, T_VALUE, bytes), _one(t, T_TAG, _uint)]
+
+    def fn(t):
+        return [_one(t, T_FN_ID, bytes), _all(t, T_FN_ARGS, arg)]
+
+    def copt(t):
+        return [_one(t, T_VALUE, bytes), _one(t, T_TAG, _uint), _one(t, T_FN_CALL, fn)]
+
+    def node(t):
+        return [_one(t, T_NODE_ID, _uint), _one(t, T_PARENT, _uint), _all(t, T_IDENT, bytes),
+                _all(t, T_VEDGE, lambda e: [_one(e, T_NODE_ID, _uint), _one(e, T_VALUE, bytes)]),
+                _all(t, T_PEDGE, lambda e: [_one(e, T_NODE_ID, _uint), _one(e, T_TAG, _uint),
+                                            _all(e, T_CONSTRAINT, lambda c: _all(c, T_OPTION, copt))]),
+                _all(t, T_KEY_NODE, _uint)]
+    t = tlv_tree(wire)
+    return [_one(t, T_VERSION, _uint), _one(t, T_NODE_ID, _uint), _one(t, T_NPC, _uint), _all(t, T_NODE, node),
+            _all(t, T_SYMBOL, lambda s: [_one(s, T_TAG, _uint), _one(s, T_IDENT, bytes)])]
+
+
+def wire_deletions(wire):
+    """every single TLV element of the model, at every nesting depth, REMOVED (enclosing lengths adjusted), and for every TLV
+    type every element of that type removed at once.  -> [(label, bytes)]"""
+    tree = tlv_tree(wire)
+    assert tlv_bytes(tree) == bytes(wire)
+    out = []
+
+    def without(t, path):
+        k = path[0]
+        if len(path) == 1:
+            return t[:k] + t[k + 1:]
+        return t[:k] + [[t[k][0], without(t[k][1], path[1:])]] + t[k + 1:]
+
+    def walk(t, path, names):
+        cnt = {}
+        for k, (tt, v) in enumerate(t):
+            nm = names + [f'{T_NAMES.get(tt, hex(tt))}[{cnt.get(tt, 0)}]']
+            cnt[tt] = cnt.get(tt, 0) + 1
+            out.append(('absent:' + '/'.join(nm), tlv_bytes(without(tree, path + [k]))))
+            if isinstance(v, list):
+                walk(v, path + [k], nm)
+    walk(tree, [], [])
+
+    def strip(t, ty):
+        return [[tt, strip(v, ty) if isinstance(v, list) else v] for tt, v in t if tt != ty]
+
+    def types(t):
+        for tt, v in t:
+            yield tt
+            if isinstance(v, list):
+                yield from types(v)
+    for ty in sorted(set(types(tree))):
+        out.append((f'absent-everywhere:{T_NAMES.get(ty, hex(ty))}', tlv_bytes(strip(tree, ty))))
+    return out
+
+
+def wire_stratum(label):
+    """'absent:Node[2]/PatternEdge[0]/NodeId[0]' -> 'absent:Node/PatternEdge/NodeId'"""
+    import re
+    return re.sub(r'\[\d+\]', '', label)
+
+
+def impl_load(wire, fns):
+    from ndn.app_support.light_versec import Checker
+    try:
+        return ('ok', Checker.load(wire, fns))
+    except BaseException as e:   # noqa  (RecursionError is an Exception; keep KeyboardInterrupt out)
+        if isinstance(e, KeyboardInterrupt):
+            raise
+        return ('err', L.exc_code(e), type(e).__name__ + ': ' + str(e)[:120])
+
+
+def parsed_dump(wire):
+    from ndn.app_support.light_versec import binary as bny
+    try:
+        return L.dump_model(bny.LvsModel.parse(wire))
+    except Exception:   # noqa  (the outcome of loading is judged through impl_load)
+        return None
 
 
 LOADER_SCHEMAS = [
@@ -303,3 +499,7 @@ def run(ctx):
                 return m
             check_loader(ctx, mk2, fe, label, names, False)
             check_loader(ctx, mk2, fe, label, names, True)
+        # the same on the bytes: every TLV element removed (what is judged is what the bytes say)
+        check_loader(ctx, None, fe, 'intact', names, True, wire=wire)
+        for label, w2 in wire_deletions(wire):
+            check_loader(ctx, None, fe, label, names, True, wire=w2)
